@@ -10,437 +10,4 @@ package main
 // boxes un-tightened ("exact envelope" is part of the property) and, after an
 // insertion, too small (SearchIntersect then misses entries).
 
-import (
-	"fmt"
-	"go/ast"
-	"go/token"
-	"go/types"
-)
-
-// rootGuard classifies an atomic condition known to have the given truth value:
-// "identity" when it states v == X.root, "parent-nil" when it states v.parent == nil.
-func (a *c11) rootGuard(at condAtom, v types.Object) string {
-	be, ok := unparen(at.E).(*ast.BinaryExpr)
-	if !ok {
-		return ""
-	}
-	if !((be.Op == token.EQL && at.Truth) || (be.Op == token.NEQ && !at.Truth)) {
-		return ""
-	}
-	for _, pr := range [][2]ast.Expr{{be.X, be.Y}, {be.Y, be.X}} {
-		l, r := unparen(pr[0]), unparen(pr[1])
-		if id, ok := l.(*ast.Ident); ok && a.info.ObjectOf(id) == v && a.fieldSel(r, a.root) != nil {
-			return "identity"
-		}
-		if X := a.fieldSel(l, a.parent); X != nil {
-			if id, ok := unparen(X).(*ast.Ident); ok && a.info.ObjectOf(id) == v {
-				if tv, ok := a.info.Types[r]; ok && tv.IsNil() {
-					return "parent-nil"
-				}
-			}
-		}
-	}
-	return ""
-}
-
-// rootParentAlwaysNil: every store of an existing node into the root field is
-// paired, in the same function, with clearing that node's parent link.  Needed
-// only when some pass recognises the root by `parent == nil`.
-func (a *c11) rootParentAlwaysNil() (bool, token.Pos, string) {
-	for _, fn := range a.pkgFuncs {
-		fd := a.c.P.Decl(fn)
-		var bad *ast.AssignStmt
-		ast.Inspect(fd.Body, func(n ast.Node) bool {
-			as, ok := n.(*ast.AssignStmt)
-			if !ok || len(as.Lhs) != 1 || len(as.Rhs) != 1 || bad != nil {
-				return true
-			}
-			if a.fieldSel(as.Lhs[0], a.root) == nil {
-				return true
-			}
-			if a.isNewNodeAbove(unparen(as.Rhs[0])) || isFreshNodeLit(as.Rhs[0]) {
-				return true
-			}
-			cleared := false
-			ast.Inspect(fd.Body, func(m ast.Node) bool {
-				as2, ok := m.(*ast.AssignStmt)
-				if !ok || len(as2.Lhs) != 1 || len(as2.Rhs) != 1 || as2.Pos() < as.Pos() {
-					return true
-				}
-				X := a.fieldSel(as2.Lhs[0], a.parent)
-				if X == nil {
-					return true
-				}
-				if tv, ok := a.info.Types[as2.Rhs[0]]; !ok || !tv.IsNil() {
-					return true
-				}
-				if sameExpr(a.info, X, as.Lhs[0]) || sameExpr(a.info, X, as.Rhs[0]) {
-					cleared = true
-				}
-				return true
-			})
-			if !cleared {
-				bad = as
-			}
-			return true
-		})
-		if bad != nil {
-			return false, bad.Pos(), fmt.Sprintf("%s: `%s` makes an existing node the root without clearing its parent link", a.c.P.FuncName(fn), src(bad))
-		}
-	}
-	return true, token.NoPos, ""
-}
-
-func isFreshNodeLit(e ast.Expr) bool {
-	if u, ok := unparen(e).(*ast.UnaryExpr); ok && u.Op == token.AND {
-		_, isLit := unparen(u.X).(*ast.CompositeLit)
-		return isLit
-	}
-	return false
-}
-
-// ownEntryLookup: m is a method on node returning *entry which returns the
-// address of the element of recv.parent.entries whose child is recv.
-func (a *c11) ownEntryLookup(m *types.Func) bool {
-	sig := m.Type().(*types.Signature)
-	if sig.Recv() == nil || named(sig.Recv().Type()) != a.nodeT || sig.Results().Len() != 1 {
-		return false
-	}
-	pt, ok := sig.Results().At(0).Type().(*types.Pointer)
-	if !ok || pt.Elem() != types.Type(a.entryT) {
-		return false
-	}
-	fd := a.c.P.Decl(m)
-	if fd == nil || fd.Recv == nil || len(fd.Recv.List) == 0 || len(fd.Recv.List[0].Names) == 0 {
-		return false
-	}
-	recv := a.info.ObjectOf(fd.Recv.List[0].Names[0])
-	cmp, addr := false, false
-	ast.Inspect(fd.Body, func(n ast.Node) bool {
-		switch x := n.(type) {
-		case *ast.BinaryExpr:
-			if x.Op == token.EQL {
-				for _, pr := range [][2]ast.Expr{{x.X, x.Y}, {x.Y, x.X}} {
-					if a.fieldSel(pr[0], a.child) != nil {
-						if id, ok := unparen(pr[1]).(*ast.Ident); ok && a.info.ObjectOf(id) == recv {
-							cmp = true
-						}
-					}
-				}
-			}
-		case *ast.UnaryExpr:
-			if x.Op == token.AND {
-				if ix, ok := unparen(x.X).(*ast.IndexExpr); ok {
-					if X := a.fieldSel(ix.X, a.entries); X != nil {
-						if P := a.fieldSel(X, a.parent); P != nil {
-							if id, ok := unparen(P).(*ast.Ident); ok && a.info.ObjectOf(id) == recv {
-								addr = true
-							}
-						}
-					}
-				}
-			}
-		}
-		return true
-	})
-	return cmp && addr
-}
-
-// fixesNode reports whether statement n stores fold(v) into v's own entry, or
-// replaces v.parent.entries (removal of v's entry).
-func (a *c11) fixesNode(n ast.Node, v types.Object, sc *fnScope) bool {
-	as, ok := n.(*ast.AssignStmt)
-	if !ok || len(as.Lhs) != 1 || len(as.Rhs) != 1 {
-		return false
-	}
-	isV := func(e ast.Expr) bool {
-		id, ok := unparen(e).(*ast.Ident)
-		return ok && a.info.ObjectOf(id) == v
-	}
-	if X := a.fieldSel(as.Lhs[0], a.entries); X != nil {
-		if P := a.fieldSel(X, a.parent); P != nil && isV(P) {
-			return true
-		}
-	}
-	E := a.fieldSel(as.Lhs[0], a.bb)
-	if E == nil {
-		return false
-	}
-	call, ok := unparen(as.Rhs[0]).(*ast.CallExpr)
-	if !ok || callee(a.info, call) != a.fold {
-		return false
-	}
-	if sel, ok := unparen(call.Fun).(*ast.SelectorExpr); !ok || !isV(sel.X) {
-		return false
-	}
-	// E must be v's own entry: v.<ownEntryLookup>() directly or through a local
-	own := func(e ast.Expr) bool {
-		c2, ok := unparen(e).(*ast.CallExpr)
-		if !ok {
-			return false
-		}
-		f := callee(a.info, c2)
-		if f == nil || !a.ownEntryLookup(f) {
-			return false
-		}
-		sel, ok := unparen(c2.Fun).(*ast.SelectorExpr)
-		return ok && isV(sel.X)
-	}
-	if own(E) {
-		return true
-	}
-	if o := objOf(a.info, E); o != nil {
-		ds := sc.defs[o]
-		if len(ds) == 0 {
-			return false
-		}
-		for _, d := range ds {
-			if d == nil || !own(d) {
-				return false
-			}
-		}
-		return true
-	}
-	return false
-}
-
-func (a *c11) r3pass(fn *types.Func) {
-	c := a.c
-	fd := c.P.Decl(fn)
-	sc := newFnScope(a.info, fd.Body)
-	cons := c.P.FuncName(fn) + "#reaches-root"
-	needNil := func(pos token.Pos) bool {
-		ok, p, why := a.rootParentAlwaysNil()
-		if !ok {
-			c.Bad(a.r3name, cons, pos, "the pass recognises the root by `parent == nil`, but %s: after that store the root has a non-nil parent, the pass climbs into the detached node above it and the real root's bookkeeping (split, height) is skipped (store at %s)", why, c.P.Position(p))
-		}
-		return ok
-	}
-	// ---- loop form: for v != root { …; v = v.parent }
-	var loop *ast.ForStmt
-	var lv types.Object
-	var climb ast.Stmt
-	ast.Inspect(fd.Body, func(n ast.Node) bool {
-		fs, ok := n.(*ast.ForStmt)
-		if !ok || loop != nil {
-			return true
-		}
-		cands := append([]ast.Stmt{}, fs.Body.List...)
-		if fs.Post != nil {
-			cands = append(cands, fs.Post)
-		}
-		for _, st := range cands {
-			as, ok := st.(*ast.AssignStmt)
-			if !ok || as.Tok != token.ASSIGN || len(as.Lhs) != 1 || len(as.Rhs) != 1 {
-				continue
-			}
-			id, ok := unparen(as.Lhs[0]).(*ast.Ident)
-			if !ok {
-				continue
-			}
-			if X := a.fieldSel(as.Rhs[0], a.parent); X != nil {
-				if id2, ok := unparen(X).(*ast.Ident); ok && a.info.ObjectOf(id2) == a.info.ObjectOf(id) {
-					loop, lv, climb = fs, a.info.ObjectOf(id), st
-				}
-			}
-		}
-		return true
-	})
-	if loop != nil {
-		if loop.Cond == nil {
-			c.Unk(a.r3name, cons, loop.Pos(), "upward loop without a condition: cannot tell where it stops")
-			return
-		}
-		kind := ""
-		for _, at := range conjuncts(loop.Cond, false) { // facts that hold when the loop exits normally
-			if k := a.rootGuard(at, lv); k != "" {
-				kind = k
-			}
-		}
-		if kind == "" || len(conjuncts(loop.Cond, false)) != 1 {
-			c.Bad(a.r3name, cons, loop.Pos(), "the upward loop `for %s` can stop at a node that is not the root: the envelopes of the remaining ancestors are not recomputed", src(loop.Cond))
-			return
-		}
-		if kind == "parent-nil" && !needNil(loop.Pos()) {
-			return
-		}
-		// no early exit
-		var exit ast.Node
-		var walk func(n ast.Node, brk, cont int)
-		walk = func(n ast.Node, brk, cont int) {
-			ast.Inspect(n, func(m ast.Node) bool {
-				if exit != nil || m == nil {
-					return false
-				}
-				switch x := m.(type) {
-				case *ast.FuncLit:
-					return false
-				case *ast.ReturnStmt:
-					exit = x
-				case *ast.BranchStmt:
-					switch x.Tok {
-					case token.GOTO:
-						exit = x
-					case token.BREAK:
-						if x.Label != nil || brk == 0 {
-							exit = x
-						}
-					case token.CONTINUE:
-						if (x.Label != nil || cont == 0) && climb != loop.Post {
-							exit = x
-						}
-					}
-				case *ast.ForStmt:
-					walk(x.Body, brk+1, cont+1)
-					return false
-				case *ast.RangeStmt:
-					walk(x.Body, brk+1, cont+1)
-					return false
-				case *ast.SwitchStmt:
-					walk(x.Body, brk+1, cont)
-					return false
-				case *ast.TypeSwitchStmt:
-					walk(x.Body, brk+1, cont)
-					return false
-				case *ast.SelectStmt:
-					walk(x.Body, brk+1, cont)
-					return false
-				}
-				return true
-			})
-		}
-		walk(loop.Body, 0, 0)
-		if exit != nil {
-			c.Bad(a.r3name, cons, exit.Pos(), "`%s` leaves the upward pass of %s below the root: every ancestor above that node keeps the box computed before the change (no longer the exact envelope; SearchIntersect and the nearest-neighbour bounds use it)", src(exit), fn.Name())
-			return
-		}
-		if climb != loop.Post && climb != loop.Body.List[len(loop.Body.List)-1] {
-			c.Unk(a.r3name, cons, climb.Pos(), "the climb `%s` is not the last statement of the loop body", src(climb))
-			return
-		}
-		// every iteration repairs the current node
-		all := true
-		cl := &FactsClient{}
-		cl.OnStmt = func(n ast.Node, s Facts) Facts {
-			if a.fixesNode(n, lv, sc) {
-				s["fixed"] = true
-			}
-			return s
-		}
-		cl.OnReturn = func(r *ast.ReturnStmt, s Facts) {
-			if !s["fixed"] {
-				all = false
-			}
-		}
-		fl := &Flow[Facts]{C: cl, Info: a.info}
-		fl.Run(loop.Body, Facts{})
-		if len(fl.Unsupported) > 0 {
-			c.Unk(a.r3name, cons, fl.Unsupported[0].Pos(), "unsupported control flow in the upward loop")
-			return
-		}
-		if !all {
-			c.Bad(a.r3name, cons, loop.Pos(), "an iteration of the upward loop of %s can climb past a node without storing its recomputed envelope into its own entry (or removing that entry)", fn.Name())
-			return
-		}
-		c.OK(a.r3name, cons, loop.Pos(), "loop form: runs until %s is the root (%s test), no early exit, each iteration stores the node's envelope into its own entry or removes the entry, then climbs", lv.Name(), kind)
-		return
-	}
-	// ---- recursion form
-	sig := fn.Type().(*types.Signature)
-	var pv types.Object
-	if sig.Params().Len() > 0 && named(sig.Params().At(0).Type()) == a.nodeT {
-		pv = sig.Params().At(0)
-	}
-	recursive := false
-	ast.Inspect(fd.Body, func(n ast.Node) bool {
-		if call, ok := n.(*ast.CallExpr); ok && callee(a.info, call) == fn {
-			recursive = true
-		}
-		return true
-	})
-	if pv == nil || !recursive {
-		c.Unk(a.r3name, cons, fd.Pos(), "shape of the upward pass not recognised (neither `for n != root { …; n = n.parent }` nor recursion on the parent)")
-		return
-	}
-	nRet, bad := 0, false
-	cl := &FactsClient{}
-	cl.OnBranch = func(cond ast.Expr, truth bool, s Facts) Facts {
-		for _, at := range conjuncts(cond, truth) {
-			if k := a.rootGuard(at, pv); k != "" {
-				s["root:"+k] = true
-			}
-		}
-		return s
-	}
-	cl.OnStmt = func(n ast.Node, s Facts) Facts {
-		if a.fixesNode(n, pv, sc) {
-			s["fixed"] = true
-		}
-		return s
-	}
-	cl.OnReturn = func(r *ast.ReturnStmt, s Facts) {
-		if bad {
-			return
-		}
-		nRet++
-		pos := fd.End()
-		if r != nil {
-			pos = r.Pos()
-		}
-		if s["root:identity"] {
-			return
-		}
-		if s["root:parent-nil"] {
-			if !needNil(pos) {
-				bad = true
-			}
-			return
-		}
-		// must recurse on the parent
-		rec := false
-		if r != nil {
-			for _, e := range r.Results {
-				ast.Inspect(e, func(m ast.Node) bool {
-					call, ok := m.(*ast.CallExpr)
-					if !ok || callee(a.info, call) != fn || len(call.Args) == 0 {
-						return true
-					}
-					arg := call.Args[0]
-					up := false
-					ast.Inspect(arg, func(k ast.Node) bool {
-						if e, ok := k.(ast.Expr); ok {
-							if X := a.fieldSel(e, a.parent); X != nil {
-								if id, ok := unparen(X).(*ast.Ident); ok && a.info.ObjectOf(id) == pv {
-									up = true
-								}
-							}
-						}
-						return true
-					})
-					if up {
-						rec = true
-					}
-					return true
-				})
-			}
-		}
-		if !rec {
-			bad = true
-			c.Bad(a.r3name, cons, pos, "%s returns below the root without recursing on %s.parent: the ancestors' envelopes are not recomputed", fn.Name(), pv.Name())
-			return
-		}
-		if !s["fixed"] {
-			bad = true
-			c.Bad(a.r3name, cons, pos, "%s climbs to the parent on a path that did not store %s's recomputed envelope into its own entry", fn.Name(), pv.Name())
-		}
-	}
-	fl := &Flow[Facts]{C: cl, Info: a.info}
-	fl.Run(fd.Body, Facts{})
-	if len(fl.Unsupported) > 0 {
-		c.Unk(a.r3name, cons, fl.Unsupported[0].Pos(), "unsupported control flow in the upward pass")
-		return
-	}
-	if !bad {
-		c.OK(a.r3name, cons, fd.Pos(), "recursion form: %d returns; each is either the root case (identity test against the root field) or recurses on %s.parent after storing the node's envelope into its own entry", nRet, pv.Name())
-	}
-}
+import ()
